@@ -53,6 +53,17 @@ def family_compress():
                                         "zq100": base + ["--use_zopflipng", "--pngquant_flags=--quality 100-100"]}, [])
 
 
+def family_vf():
+    """A two-master variable font driven by a config file: per-master UFO edges feeding the write_variable_font edge.
+    User operations: editing a master's source (structure kept), toggling flags that reach the font through the TOMLs."""
+    srcs = ["thin/emoji_u1f600.svg", "bold/emoji_u1f600.svg"]
+    toml = ('output_file = "Font.ttf"\n[axis.wght]\nname = "Weight"\ndefault = 300\n'
+            '[master.thin]\nstyle_name = "Thin"\nsrcs = ["thin/*.svg"]\n[master.thin.position]\nwght = 300\n'
+            '[master.bold]\nstyle_name = "Bold"\nsrcs = ["bold/*.svg"]\n[master.bold.position]\nwght = 700\n')
+    return bm.Family("vf", srcs, {"plain": [], "fam": ["--family", "Other Family", "--ascender", "900"]}, [],
+                     configs={"config.toml": toml}, full_only=True, positional=["config.toml"])
+
+
 def option_cycles(chk, fam, work, quick, fault_outs=()):
     """Every way of walking through the family's option values on one build directory (quick: one walk): the font after
     each invocation must be the clean build for that value; thorough adds a failed run in the middle."""
@@ -120,9 +131,9 @@ def select_histories(records, n, r):
     return picks[:max(n, len(covered))], len(seen), sorted(covered)
 
 
-def run_models(chk, fam, data, sd, quick):
+def run_models(chk, fam, data, sd, quick, user_ops=None):
     """TLC part shared by C09/C17; returns records for replay."""
-    base = dict(UserOps=SAFE_OPS, FaultKinds=FAULTS, MaxFaults=1, MaxVer=2, FreeSchedule=False,
+    base = dict(UserOps=user_ops or SAFE_OPS, FaultKinds=FAULTS, MaxFaults=1, MaxVer=2, FreeSchedule=False,
                 MaxOps=5 if quick else 6)
     mc = bm.write_mc(data, sd, "hist", base, INVS)
     res = common.run_tlc(mc, mc + ".cfg", spec_dir=sd, timeout=3000, coverage=False)
@@ -255,6 +266,13 @@ def run(chk):
             base2 = run_models(chk, fam2, data2, w2 / "spec", quick)
             replay_sample(chk, fam2, data2, w2 / "spec", w2, base2, n2, pid="C09-" + fam2.name)
             option_cycles(chk, fam2, w2, quick)
+        # a variable font: masters' UFOs feed one merging edge (sources cannot be added or removed one master at a time)
+        fv = family_vf()
+        wv = work / "vf"
+        datav = bm.extract_family(fv, wv / "x")
+        basev = run_models(chk, fv, datav, wv / "spec", quick, user_ops=["Edit", "ToggleOpt"])
+        replay_sample(chk, fv, datav, wv / "spec", wv, basev, 5 if quick else 60, pid="C09-vf")
+        option_cycles(chk, fv, wv, quick)
         # three compression option values: walks only (the model of this family is the bitmap family's)
         option_cycles(chk, family_compress(), work / "compress", quick,
                       fault_outs=("zopflipng/emoji_u1f9e0.png", "pngquant/emoji_u1f9e0.png"))
